@@ -50,7 +50,7 @@ TIERS = {
 RULE = ("Program = (dtype in {float64, float32, complex128}; a hierarchy of 1-4 dynamically created operator classes "
         "[parent = LinearOperator or an earlier class; each defines a drawn subset of _mv,_rmv,_mm,_rmm,_fullmatrix,"
         "_getparamnames; classes without _mv in their MRO are abstract]; a body of <=14 (quick) operations: "
-        "instantiate a class on a batched matrix [Hermitian-flagged or not], wrap a dense matrix, build a jac operator, "
+        "instantiate a class on a batched matrix [Hermitian-flagged or not; incl. a matrix-free restriction whose _mv returns a view of its input], wrap a dense matrix, build a jac operator (float64 / complex128 holomorphic), "
         "compose with .H / matmul / + / - / rsub / scalar* / *scalar / A.matmul(A.H, is_hermitian=True), apply "
         "mv/mm/rmv/rmm/fullmatrix with a broadcastable or deliberately mismatched operand [under no_grad or not], query "
         "capability properties, and requests that must be rejected); one class in eight has a _mv that autograd cannot "
@@ -135,9 +135,14 @@ def draw_program(cs, cfg):
         else:
             p = cs.randint(1, 3, "p")
             q = p if (square or herm) else (cs.randint(1, 3, "q") if not cs.bool("sq", 1, 2) else p)
-        return {"batch": list(b), "p": p, "q": q, "seed": cs.draw(1000, "mseed"), "herm": bool(herm),
-                "scale": [1.0, 1e-9, 1e5, 0.0][cs.weighted([12, 2, 2, 1], "mscale")],
-                "spike": (P["dtype"] != "float32") and cs.bool("spike", 1, 8)}
+        m = {"batch": list(b), "p": p, "q": q, "seed": cs.draw(1000, "mseed"), "herm": bool(herm),
+             "scale": [1.0, 1e-9, 1e5, 0.0][cs.weighted([12, 2, 2, 1], "mscale")],
+             "spike": (P["dtype"] != "float32") and cs.bool("spike", 1, 8)}
+        if not herm and not square and p != q and cs.bool("restriction", 1, 5):
+            # a matrix-free restriction (the first p of q coordinates): a user class answers its _mv with a VIEW of
+            # the vector it was handed, not with a fresh tensor
+            m.update(restrict=True, batch=[], p=min(p, q), q=max(p, q), scale=1.0, spike=False)
+        return m
 
     npool_seen = 0
     for step in range(nops):
@@ -161,7 +166,7 @@ def draw_program(cs, cfg):
                     m = draw_mat(herm=herm)
                     ops.append({"op": "inst", "cls": c, "mat": m, "flag": herm, "valid": True})
                     pool.append({"p": m["p"], "q": m["q"], "batch": tuple(m["batch"]), "kind": "user", "leaf": True,
-                                 "jac": False,
+                                 "jac": False, "herm": bool(herm),
                                  "taint": bool(classes[c]["nodiff_eff"] and "_rmv" not in classes[c]["all"])})
                 elif bad == 1:
                     m = draw_mat()
@@ -189,9 +194,9 @@ def draw_program(cs, cfg):
             ops.append({"op": "dense", "mat": m, "harg": arg, "valid": valid})
             if valid:
                 pool.append({"p": m["p"], "q": m["q"], "batch": tuple(m["batch"]), "kind": "dense", "leaf": True,
-                             "jac": False, "sym": bool(herm)})
+                             "jac": False, "sym": bool(herm), "herm": bool(herm) and arg is not False})
         elif k == 5:    # jac operator / abstract base
-            if P["dtype"] == "float64" and cs.bool("jac", 2, 3):
+            if P["dtype"] in ("float64", "complex128") and cs.bool("jac", 2, 3):
                 nout = cs.randint(1, 3, "nout")
                 nin = cs.randint(1, 3, "nin")
                 ops.append({"op": "jac", "nout": nout, "nin": nin, "seed": cs.draw(1000, "jseed"), "valid": True})
@@ -254,6 +259,16 @@ def draw_program(cs, cfg):
                                  "jac": a["jac"], "taint": a.get("taint", False)})
                 else:
                     j = cands[cs.draw(len(cands), "j")]
+                    if name == "matmul" and not want_bad:
+                        # a product of two Hermitian-flagged operators (not both dense-wrapped) is in general NOT
+                        # Hermitian: its adjoint products must not take a Hermitian shortcut
+                        hp = [j_ for j_, b_ in enumerate(pool) if b_.get("herm")]
+                        pairs = [(i_, j_) for i_ in hp for j_ in hp if i_ != j_ and pool[i_]["p"] == pool[j_]["p"]
+                                 and pool[i_]["p"] > 1 and bcast(pool[i_]["batch"], pool[j_]["batch"]) is not None
+                                 and not (pool[i_]["kind"] == "dense" and pool[j_]["kind"] == "dense")]
+                        if pairs and cs.bool("hermitian_pair", 1, 2):
+                            i, j = pairs[cs.draw(len(pairs), "hpair")]
+                            a = pool[i]
                     b = pool[j]
                     ops.append({"op": name, "i": i, "j": j, "valid": not want_bad})
                     if not want_bad:
@@ -377,6 +392,8 @@ def _u_init(self, mat, is_hermitian=False):
     shape = list(mat.shape) if getattr(type(self), "_shape_as_list", False) else mat.shape
     LinearOperator.__init__(self, shape=shape, is_hermitian=is_hermitian, dtype=mat.dtype, device=mat.device)
     self.mat = mat
+    self._restriction = bool(mat.dim() == 2 and mat.shape[0] <= mat.shape[1] and mat.shape[1] > 1 and
+                             torch.equal(mat, torch.eye(mat.shape[0], mat.shape[1], dtype=mat.dtype)))
     if isinstance(shape, list):
         # the list is the caller's: it goes on using it (for the next, larger operator); this operator must not follow
         shape[-2] += 2
@@ -386,6 +403,9 @@ def _u_init(self, mat, is_hermitian=False):
 
 def _u_mv(self, x):
     _rec(self, "_mv")
+    if getattr(self, "_restriction", False):
+        SIM.count("reach.user_mv_returns_a_view_of_its_input")
+        return x[..., :self.mat.shape[0]]
     if self.mat.numel() > 0 and not bool(self.mat.any()):
         # a zero operator that does not even look at its input (no autograd dependence on x)
         shape = torch.broadcast_shapes(self.mat.shape[:-2], x.shape[:-1]) + (self.mat.shape[-2],)
@@ -450,6 +470,8 @@ def gen_matrix(m, dtype):
     g.manual_seed(1000 + m["seed"])
     shape = tuple(m["batch"]) + (m["p"], m["q"])
     dt = tdtype(dtype)
+    if m.get("restrict"):
+        return torch.eye(m["p"], m["q"], dtype=dt)
     if dt.is_complex:
         x = torch.randn(shape, generator=g, dtype=torch.float64) + 1j * torch.randn(shape, generator=g, dtype=torch.float64)
         x = x.to(dt)
@@ -493,8 +515,33 @@ def jac_fn(nout, nin, seed):
     return fn, x0
 
 
-def make_jac(nout, nin, seed):
+def make_jac_complex(nout, nin, seed):
+    """jac operator of a holomorphic polynomial map C^nin -> C^nout; the dense model is the analytic complex
+    Jacobian d f_i / d z_j (no autograd convention enters the reference)"""
     from xitorch.grad import jac
+    g = torch.Generator()
+    g.manual_seed(9100 + seed)
+
+    def crand(*shape):
+        return (torch.randn(*shape, generator=g, dtype=torch.float64) +
+                1j * torch.randn(*shape, generator=g, dtype=torch.float64)).to(torch.complex128)
+    W = 0.7 * crand(nout, nin)
+    c = crand(nout)
+    x0 = 0.5 * crand(nin)
+
+    def fn(x, a):
+        return (W @ (x * x)) * a + c * x.sum()
+    x = x0.clone().requires_grad_()
+    a = torch.tensor(1.3 - 0.4j, dtype=torch.complex128).requires_grad_()
+    op = jac(fn, params=(x, a), idxs=0)
+    dense = 2.0 * a.detach() * W * x0.unsqueeze(0) + c.unsqueeze(-1) * torch.ones(1, nin, dtype=torch.complex128)
+    return op, dense.detach(), (fn, x, a)
+
+
+def make_jac(nout, nin, seed, dtype="float64"):
+    from xitorch.grad import jac
+    if dtype == "complex128":
+        return make_jac_complex(nout, nin, seed)
     fn, x0 = jac_fn(nout, nin, seed)
     x = x0.clone().requires_grad_()
     a = torch.tensor(1.3, dtype=torch.float64).requires_grad_()
@@ -613,6 +660,7 @@ def execute(P, pre):
             desc = None
             res = None
             err = None
+            operand_modified = False
             try:
                 if k == "inst":
                     mat = gen_matrix(op["mat"], dtype)
@@ -629,7 +677,7 @@ def execute(P, pre):
                     absmodel = mat.abs()
                     res = LinearOperator.m(mat, is_hermitian=op["harg"])
                 elif k == "jac":
-                    res, model, kk = make_jac(op["nout"], op["nin"], op["seed"])
+                    res, model, kk = make_jac(op["nout"], op["nin"], op["seed"], dtype)
                     keep.append(kk)
                     desc = "J"
                     absmodel = model.abs()
@@ -737,11 +785,14 @@ def execute(P, pre):
                             M = MA if prod in ("mv", "mm") else MH
                             model = torch.matmul(M, x.unsqueeze(-1)).squeeze(-1) if prod in ("mv", "rmv") \
                                 else torch.matmul(M, x)
+                    x_before = None if x is None else x.clone()
                     if op["nograd"]:
                         with torch.no_grad():
                             res = getattr(A, prod)(*([] if x is None else [x]))
                     else:
                         res = getattr(A, prod)(*([] if x is None else [x]))
+                    if x is not None and not torch.equal(x, x_before):
+                        operand_modified = True
                 elif k == "query":
                     A, MA, dA = pool[op["i"]]
                     desc = dA
@@ -774,6 +825,8 @@ def execute(P, pre):
                         obs.append(o)
                         break
                 elif k == "apply":
+                    if operand_modified:
+                        V("operand_modified", "the product wrote into the caller's vector/matrix")
                     if not isinstance(res, torch.Tensor):
                         V("not_a_tensor", "returned %s" % type(res).__name__)
                     else:
